@@ -185,7 +185,12 @@ func (a *AreaMembers) Clone() AreaMembers {
 		ids:      make([][]b6.FeatureID, len(a.ids)),
 		polygons: make([]*s2.Polygon, len(a.polygons)),
 	}
-	copy(clone.ids, a.ids)
+	for i, ids := range a.ids {
+		if ids != nil {
+			clone.ids[i] = make([]b6.FeatureID, len(ids))
+			copy(clone.ids[i], ids)
+		}
+	}
 	copy(clone.polygons, a.polygons)
 	return clone
 }
